@@ -75,6 +75,9 @@ func c09Alphabet(thorough bool) []c09Op {
 		{"clearS", []int64{1, 3}},
 		{"roaringS", nil},
 		{"bulkS", nil},
+		// 100 changed bits in ONE fragment: a single batch op record of 13+800 bytes (must reach the
+		// file in one write: a kill inside it would leave a truncated record that blocks the restart)
+		{"bulkS100", nil},
 		{"setV", []int64{3, 5}},
 		{"setV", []int64{3, -6}},
 		{"importV", nil},
@@ -191,6 +194,16 @@ func (st *c09Store) apply(op c09Op) error {
 			return err
 		}
 		return f.Import([]uint64{1, 2}, []uint64{4, sw + 4}, nil)
+	case "bulkS100":
+		f, err := st.field("s")
+		if err != nil {
+			return err
+		}
+		rows, cols := make([]uint64, 100), make([]uint64, 100)
+		for i := range rows {
+			rows[i], cols[i] = 3, uint64(100+i)
+		}
+		return f.Import(rows, cols, nil)
 	case "setV":
 		f, err := st.field("v")
 		if err != nil {
@@ -725,6 +738,10 @@ func (m *c09Model) apply(op c09Op) {
 	case "bulkS":
 		set("s", 1, 4)
 		set("s", 2, sw+4)
+	case "bulkS100":
+		for i := uint64(0); i < 100; i++ {
+			set("s", 3, 100+i)
+		}
 	case "setV":
 		m.vals[uint64(op.A[0])] = op.A[1]
 	case "importV":
